@@ -162,6 +162,12 @@ func runC07(args []string) int {
 		sets = append(sets, qx.DocSets(qx.Shapes(true), k)...)
 	}
 	filters := qx.Filters(tier == "thorough")
+	// degenerate patterns (appended, so that the positions of the other terms stay put)
+	for _, op := range []string{"_like", "_nlike"} {
+		for _, v := range []string{"", "%"} {
+			filters = append(filters, qx.Cond{Field: "s", Op: op, Str: v})
+		}
+	}
 	orders := qx.Orders()
 	configs := c07Configs()
 	var mu sync.Mutex
